@@ -113,6 +113,9 @@ def run(ctx):
         ctx.notes.append('stale finding: C11-size-on-reference no longer reproduces')
     else:
         ctx.known_finding('C11-size-on-reference', 'witness U ::= T (SIZE(1..2)), T ::= OCTET STRING accepts 3 octets')
+    # same-named imported symbols (values used as bounds, types) in different modules vs the same types written inline
+    from .. import samename
+    samename.run(ctx, 'C11', ctx.rng, ctx.n(5, 60))
 
 
 def add_serial(rng, t):
